@@ -411,6 +411,146 @@ def aes_shiftrows_src(i):
     return row + 4 * ((col + row) % 4)
 
 
+def _cmpgt(w):
+    def f(it, key, a, ce):
+        out = []
+        for x, y in zip(lanes(a[0], w), lanes(a[1], w)):
+            if bv.const_value(x) == 0:
+                b = y[w - 1]
+            else:
+                b = bv.cmp_bit("slt", y, x)
+            out.append((b,) * w)
+        return join(out)
+    return f
+
+
+def _cmplt(w):
+    g = _cmpgt(w)
+
+    def f(it, key, a, ce):
+        return g(it, key, [a[1], a[0]], ce)
+    return f
+
+
+for _w in (8, 16, 32):
+    x86("_mm_cmpgt_epi%d" % _w, "_mm256_cmpgt_epi%d" % _w)(_cmpgt(_w))
+    x86("_mm_cmplt_epi%d" % _w)(_cmplt(_w))
+x86("_mm_cmpeq_epi16", "_mm256_cmpeq_epi16")(_cmpeq(16))
+x86("_mm256_cmpeq_epi8")(_cmpeq(8))
+x86("_mm256_cmpeq_epi32")(_cmpeq(32))
+x86("_mm256_cmpeq_epi64")(_cmpeq(64))
+x86("_mm_add_epi16", "_mm256_add_epi16")(_lanewise_add(16))
+x86("_mm256_add_epi8")(_lanewise_add(8))
+x86("_mm256_add_epi64")(_lanewise_add(64))
+
+
+def _lanewise_sub(w):
+    def f(it, key, a, ce):
+        return join(bv.sub(x, y) for x, y in zip(lanes(a[0], w), lanes(a[1], w)))
+    return f
+
+
+for _w in (8, 16, 32, 64):
+    x86("_mm_sub_epi%d" % _w, "_mm256_sub_epi%d" % _w)(_lanewise_sub(_w))
+x86("_mm256_slli_epi16")(_shift(16, True))
+x86("_mm256_srli_epi16")(_shift(16, False))
+x86("_mm256_slli_epi64")(_shift(64, True))
+x86("_mm256_srli_epi64")(_shift(64, False))
+
+
+@x86("_mm_movemask_epi8", "_mm256_movemask_epi8")
+def _movemask8(it, key, a, ce):
+    bits = tuple(l[7] for l in lanes(a[0], 8))
+    return bv.zext(bits, 32)
+
+
+@x86("_mm_set1_epi16", "_mm256_set1_epi16")
+def _set1_16(it, key, a, ce):
+    return join([a[0]] * (16 if "256" in key else 8))
+
+
+@x86("_mm_set1_epi32", "_mm256_set1_epi32")
+def _set1_32(it, key, a, ce):
+    return join([a[0]] * (8 if "256" in key else 4))
+
+
+@x86("_mm256_set1_epi64x")
+def _set1_64_256(it, key, a, ce):
+    return join([a[0]] * 4)
+
+
+@x86("_mm_setr_epi32", "_mm256_setr_epi32", "_mm_setr_epi8", "_mm_setr_epi16", "_mm256_setr_epi64x")
+def _setr(it, key, a, ce):
+    return join(list(a))
+
+
+@x86("_mm_set_epi8", "_mm_set_epi16", "_mm256_set_epi32", "_mm256_set_epi8")
+def _set_rev(it, key, a, ce):
+    return join(list(reversed(a)))
+
+
+@x86("_mm256_castsi256_si128")
+def _cast256_128(it, key, a, ce):
+    return a[0][:128]
+
+
+@x86("_mm256_castsi128_si256", "_mm256_zextsi128_si256")
+def _cast128_256(it, key, a, ce):
+    if "zext" in key:
+        return a[0] + (ZERO,) * 128
+    return a[0] + bv.ufn("undef_upper", (a[0],), 128)
+
+
+@x86("_mm256_broadcastsi128_si256")
+def _bcast128(it, key, a, ce):
+    return a[0] + a[0]
+
+
+@x86("_mm256_setzero_si256")
+def _setzero256(it, key, a, ce):
+    return (ZERO,) * 256
+
+
+@x86("_mm256_permute4x64_epi64")
+def _perm4x64(it, key, a, ce):
+    im = imm(ce)
+    l = lanes(a[0], 64)
+    return join(l[(im >> (2 * i)) & 3] for i in range(4))
+
+
+def _unpack256(w, hi):
+    g = _unpack(w, hi)
+
+    def f(it, key, a, ce):
+        return join(g(it, key, [x, y], ce) for x, y in zip(lanes(a[0], 128), lanes(a[1], 128)))
+    return f
+
+
+for _w in (8, 16, 32, 64):
+    x86("_mm256_unpacklo_epi%d" % _w)(_unpack256(_w, False))
+    x86("_mm256_unpackhi_epi%d" % _w)(_unpack256(_w, True))
+
+
+@x86("_mm256_alignr_epi8")
+def _alignr256(it, key, a, ce):
+    k = min(imm(ce), 32)
+    out = []
+    for x, y in zip(lanes(a[0], 128), lanes(a[1], 128)):
+        out.append(bv.lshr(y + x, 8 * k)[:128])
+    return join(out)
+
+
+@x86("_mm_blend_epi16")
+def _blend16(it, key, a, ce):
+    im = imm(ce)
+    return join(y if (im >> i) & 1 else x for i, (x, y) in enumerate(zip(lanes(a[0], 16), lanes(a[1], 16))))
+
+
+@x86("_mm_loadl_epi64")
+def _loadl(it, key, a, ce):
+    return bv.zext(it.deref_read(a[0], "u64"), 128)
+
+
 @x86("_mm_aesenclast_si128")
 def _aesenclast(it, key, a, ce):
     xb = lanes(a[0], 8)
@@ -657,6 +797,9 @@ def _as_slice(it, p, t=None):
             n = it.ty.array_len(t)
             e = it.ty.elem(t)
             if p.idx is not None:
+                if p.ety is not None and (p.ety == t or it.ty.get(p.ety) == it.ty.get(t)):
+                    # pointer to an element of an outer array that is itself the array
+                    return Ptr(p.cell, p.path + (("i", p.idx, None),), idx=0, meta=n, ety=e)
                 # pointer into a larger element run reinterpreted as array of n
                 es, ps = it.ty.size_bits(e), it.ty.size_bits(p.ety)
                 if es != ps:
@@ -754,11 +897,11 @@ def _index(it, key, a, ce, arr_ty=None):
     if isinstance(r, int):
         if r >= s.meta:
             raise Diverge(("panic", key, "index %d out of bounds %d" % (r, s.meta)))
-        return Ptr(s.cell, s.path, idx=s.idx + r, meta=None, ety=s.ety)
+        return it.elem_ptr(s, r)
     st, en = r
     if st > en or en > s.meta:
         raise Diverge(("panic", key, "range %d..%d out of bounds %d" % (st, en, s.meta)))
-    return Ptr(s.cell, s.path, idx=s.idx + st, meta=en - st, ety=s.ety)
+    return it.subslice(s, st, en - st)
 
 
 @model("core::slice::index::<impl core::ops::index::Index<I> for [T]>::index",
@@ -798,6 +941,33 @@ def _fill(it, key, a, ce):
     d = _as_slice(it, a[0])
     it.slice_store(d, [a[1]] * d.meta)
     return Agg(())
+
+
+@model("core::slice::<impl [T]>::align_to", "core::slice::<impl [T]>::align_to_mut")
+def _align_to(it, key, a, ce):
+    """Split by alignment of the element address.  The address of a root allocation modulo 64 is the
+    selector `it.align_case` (chosen by the check, swept over all values); everything else is exact."""
+    s = _as_slice(it, a[0])
+    if s.vty is not None:
+        raise Undecided("align_to of a view")
+    ga = ce["generic_args"]
+    ut = ga[-1]["ty"]
+    et = s.ety or ga[0]["ty"]
+    es = it.ty.get(et)["size"]
+    us, ua = it.ty.get(ut)["size"], it.ty.get(ut)["align"]
+    if es == 0 or us == 0 or us % es or ua > 64:
+        raise Undecided("align_to::<%s> over %s" % (ut, et))
+    base = it.cell_address(s.cell)
+    addr = (base + s.idx * es) % 64
+    head_bytes = (-addr) % ua
+    if head_bytes % es:
+        head = s.meta
+    else:
+        head = min(s.meta, head_bytes // es)
+    body_n = ((s.meta - head) * es) // us
+    tail_start = head + body_n * (us // es)
+    body = Ptr(s.cell, s.path, idx=s.idx + head, meta=body_n, ety=et, vty=ut)
+    return Agg([it.subslice(s, 0, head), body, it.subslice(s, tail_start, s.meta - tail_start)])
 
 
 @model("core::ptr::read_unaligned", "core::ptr::read")
@@ -860,7 +1030,7 @@ def it_next(it, x):
         s, pos, end = x.a
         if pos >= end:
             return None, x
-        return Ptr(s.cell, s.path, idx=s.idx + pos, meta=None, ety=s.ety), It("slice", s, pos + 1, end)
+        return it.elem_ptr(s, pos), It("slice", s, pos + 1, end)
     if k == "chunks":       # (slice ptr, pos, size, exact)
         s, pos, size, exact = x.a
         rem = s.meta - pos
@@ -895,6 +1065,17 @@ def it_next(it, x):
     if k == "rangefrom":
         s, bits = x.a
         return bv.const(s, bits), It("rangefrom", s + 1, bits)
+    if k == "vals":
+        vals, pos = x.a
+        if pos >= len(vals):
+            return None, x
+        return vals[pos], It("vals", vals, pos + 1)
+    if k == "byref":
+        (p,) = x.a
+        inner = _deref_any(it, p)
+        v, inner2 = it_next(it, inner)
+        _store_any(it, p, inner2)
+        return v, x
     raise Undecided("next of iterator %s" % k)
 
 
@@ -909,7 +1090,7 @@ def it_next_back(it, x):
         s, pos, end = x.a
         if pos >= end:
             return None, x
-        return Ptr(s.cell, s.path, idx=s.idx + end - 1, meta=None, ety=s.ety), It("slice", s, pos, end - 1)
+        return it.elem_ptr(s, end - 1), It("slice", s, pos, end - 1)
     raise Undecided("next_back of iterator %s" % k)
 
 
@@ -919,8 +1100,17 @@ def to_iter(it, v, t):
         return v
     d = it.ty.get(t) if t in it.ty.t else None
     if isinstance(v, Ptr):
+        if v.idx is None and v.meta is None:
+            try:
+                tgt = it.read_path(v.cell.v, v.path)
+            except Undecided:
+                tgt = None
+            if isinstance(tgt, It):
+                return It("byref", v)          # `&mut iterator` used as an iterator
         s = _as_slice(it, v, t)
         return It("slice", s, 0, s.meta)
+    if isinstance(v, Agg) and t is not None and t in it.ty.t and it.ty.is_arraylike(t):
+        return It("vals", tuple(v.f), 0)          # array by value
     if isinstance(v, Agg) and t is not None:
         name = t.split("<")[0]
         if name.endswith("ops::range::RangeFrom"):
@@ -954,6 +1144,14 @@ def _chunks(it, key, a, ce):
     if n == 0:
         raise Diverge(("panic", key, "chunk size 0"))
     return It("chunks", _as_slice(it, a[0]), 0, n, False)
+
+
+@model("core::slice::iter::ChunksExactMut::<'a, T>::into_remainder")
+def _into_remainder(it, key, a, ce):
+    x = a[0]
+    s, pos, size, exact = x.a
+    full = ((s.meta - pos) // size) * size
+    return it.subslice(s, pos + full, s.meta - pos - full)
 
 
 @model("core::slice::iter::ChunksExact::<'a, T>::remainder")
@@ -1188,3 +1386,216 @@ def _write_to(it, key, a, ce):
 
 def _argty(it, ce, key):
     return ce["generic_args"][0]["ty"]
+
+
+# ------------------------------------------------------------------ generic iterator adaptors
+def _it_of(it, v, t=None):
+    """Iterator model behind a receiver: the It itself, a `&mut It`, or an IntoIterator value."""
+    if isinstance(v, It):
+        return v, None
+    if isinstance(v, Ptr) and v.idx is None and v.meta is None:
+        try:
+            tgt = it.read_path(v.cell.v, v.path)
+        except Undecided:
+            tgt = None
+        if isinstance(tgt, It):
+            return tgt, v
+    return to_iter(it, v, t), None
+
+
+def it_next_ext(it, x):
+    k = x.k
+    if k == "map":
+        inner, f, fty = x.a
+        v, inner2 = it_next_ext(it, inner)
+        if v is None:
+            return None, x
+        return _call_fn(it, f, [v], fty), It("map", inner2, f, fty)
+    if k in ("cloned", "copied"):
+        (inner,) = x.a
+        v, inner2 = it_next_ext(it, inner)
+        if v is None:
+            return None, x
+        return _deref_any(it, v), It(k, inner2)
+    if k == "take":
+        inner, n = x.a
+        if n == 0:
+            return None, x
+        v, inner2 = it_next_ext(it, inner)
+        if v is None:
+            return None, x
+        return v, It("take", inner2, n - 1)
+    if k == "skip":
+        inner, n = x.a
+        while n:
+            v, inner = it_next_ext(it, inner)
+            n -= 1
+            if v is None:
+                return None, It("skip", inner, 0)
+        v, inner2 = it_next_ext(it, inner)
+        return v, It("skip", inner2, 0)
+    if k == "chain":
+        a, b = x.a
+        if a is not None:
+            v, a2 = it_next_ext(it, a)
+            if v is not None:
+                return v, It("chain", a2, b)
+            a = None
+        v, b2 = it_next_ext(it, b)
+        return v, It("chain", None, b2)
+    if k == "step_by":
+        inner, step, first = x.a
+        if not first:
+            for _ in range(step - 1):
+                v, inner = it_next_ext(it, inner)
+                if v is None:
+                    return None, It("step_by", inner, step, False)
+        v, inner2 = it_next_ext(it, inner)
+        return v, It("step_by", inner2, step, False)
+    if k in ("zip", "enumerate", "rev"):
+        # adaptors over possibly extended iterators
+        if k == "zip":
+            ia, ib = x.a
+            va, ia2 = it_next_ext(it, ia)
+            if va is None:
+                return None, x
+            vb, ib2 = it_next_ext(it, ib)
+            if vb is None:
+                return None, It("zip", ia2, ib)
+            return Agg([va, vb]), It("zip", ia2, ib2)
+        if k == "enumerate":
+            inner, n = x.a
+            v, inner2 = it_next_ext(it, inner)
+            if v is None:
+                return None, x
+            return Agg([bv.const(n, 64), v]), It("enumerate", inner2, n + 1)
+    return it_next(it, x)
+
+
+_old_it_next = it_next
+
+
+def _patched_it_next(it, x):
+    if x.k in ("map", "cloned", "copied", "take", "skip", "chain", "step_by", "zip", "enumerate"):
+        return it_next_ext(it, x)
+    return _old_it_next(it, x)
+
+
+it_next = _patched_it_next
+
+
+def _iter_method(it, key, a, ce):
+    """Iterator::<method> on a modelled iterator (any adaptor type): dispatch on the method name."""
+    m = re.search(r">::(\w+)(?:::<.*)?$", key) or re.search(r"::(\w+)(?:::<.*)?$", key)
+    name = m.group(1)
+    ga = ce.get("generic_args", [])
+    selfty = ga[0]["ty"] if ga and "ty" in ga[0] else None
+    x, ref = _it_of(it, a[0], selfty)
+
+    def writeback(x2):
+        if ref is not None:
+            _store_any(it, ref, x2)
+
+    if name == "next":
+        v, x2 = it_next(it, x)
+        writeback(x2)
+        return NONE() if v is None else SOME(v)
+    if name in ("fold",):
+        acc, f = a[1], a[2]
+        fty = ga[-1]["ty"]
+        while True:
+            v, x = it_next(it, x)
+            if v is None:
+                writeback(x)
+                return acc
+            acc = _call_fn(it, f, [acc, v], fty)
+    if name == "for_each":
+        f = a[1]
+        fty = ga[-1]["ty"]
+        while True:
+            v, x = it_next(it, x)
+            if v is None:
+                writeback(x)
+                return Agg(())
+            _call_fn(it, f, [v], fty)
+    if name == "map":
+        return It("map", x, a[1], ga[-1]["ty"])
+    if name in ("cloned", "copied"):
+        return It(name, x)
+    if name == "rev":
+        return It("rev", x)
+    if name == "enumerate":
+        return It("enumerate", x, 0)
+    if name == "zip":
+        return It("zip", x, to_iter(it, a[1], ga[1]["ty"]))
+    if name == "chain":
+        return It("chain", x, to_iter(it, a[1], ga[1]["ty"]))
+    if name == "take":
+        return It("take", x, cint(a[1], "take count"))
+    if name == "skip":
+        return It("skip", x, cint(a[1], "skip count"))
+    if name == "step_by":
+        return It("step_by", x, cint(a[1], "step"), True)
+    if name == "by_ref":
+        return a[0]
+    if name in ("count",):
+        n = 0
+        while True:
+            v, x = it_next(it, x)
+            if v is None:
+                return bv.const(n, 64)
+            n += 1
+    if name == "last":
+        last = None
+        while True:
+            v, x = it_next(it, x)
+            if v is None:
+                return NONE() if last is None else SOME(last)
+            last = v
+    if name == "nth":
+        n = cint(a[1], "nth")
+        v = None
+        for _ in range(n + 1):
+            v, x = it_next(it, x)
+            if v is None:
+                break
+        writeback(x)
+        return NONE() if v is None else SOME(v)
+    if name in ("all", "any"):
+        f = a[1]
+        fty = ga[-1]["ty"]
+        while True:
+            v, x = it_next(it, x)
+            if v is None:
+                writeback(x)
+                return (ONE if name == "all" else ZERO,)
+            r = _call_fn(it, f, [v], fty)
+            c = bv.const_value(r)
+            if c is None:
+                raise Undecided("Iterator::%s with a non-constant predicate" % name)
+            if (name == "all" and not c) or (name == "any" and c):
+                writeback(x)
+                return (ZERO if name == "all" else ONE,)
+    if name == "sum":
+        t = it.dest_ty
+        acc = bv.const(0, it.ty.size_bits(t))
+        while True:
+            v, x = it_next(it, x)
+            if v is None:
+                return acc
+            if isinstance(v, Ptr):
+                v = _deref_any(it, v)
+            acc = bv.add(acc, v)
+    if name in ("size_hint", "len"):
+        raise Undecided("Iterator::%s" % name)
+    raise Undecided("iterator method %s on a modelled iterator" % name)
+
+
+@model("core::array::iter::<impl core::iter::traits::collect::IntoIterator for [T; N]>::into_iter")
+def _array_into_iter(it, key, a, ce):
+    return It("vals", tuple(a[0].f), 0)
+
+
+for _p in ("<core::iter::adapters::", "<core::slice::iter::", "<core::array::iter::", "core::iter::traits::iterator::Iterator::",
+           "core::iter::traits::double_ended::DoubleEndedIterator::", "<&mut I as core::iter::traits::iterator::Iterator>::"):
+    PREFIX.append((_p, _iter_method))
